@@ -3,7 +3,7 @@ and return every observable of every Conv2d/Linear layer as plain python data (i
 
 A spec:  {'seed', 'cin', 'hw':[H,W], 'wbits', 'abits', 'backend':'MATCH'|'MAUPITI', 'kwargs':{scale_bit, shift_pos},
           'layers':[{'kind':'conv','cout','k':[kh,kw],'stride':[..],'pad':[..],'dil':[..],'dw':bool,'bias':bool,'bn':bool}, ...],
-          'head':{'pool':bool,'bias':bool,'out':n} | None (fully convolutional: the last conv is the output layer)}
+          'head':{'pool':bool,'bias':bool,'out':n,'hidden':k|0,'hidden_bias':bool} | None (fully convolutional: the last conv is the output layer)}
 """
 import copy, sys, traceback, random, math
 
@@ -54,6 +54,16 @@ def build(spec, torch, nn):
                     feat = c * h * w
                 self.flat = nn.Flatten()
                 self.order.append('flat')
+                if H.get('hidden'):
+                    fc0 = nn.Linear(feat, H['hidden'], bias=H.get('hidden_bias', True))
+                    with torch.no_grad():
+                        fc0.weight.copy_((torch.rand(fc0.weight.shape, generator=g) - 0.5) * 2 * 0.4)
+                        if fc0.bias is not None:
+                            fc0.bias.copy_((torch.rand(H['hidden'], generator=g) - 0.5) * 2 * H.get('bmag', 0.5))
+                    self.fc0 = fc0
+                    self.rfc0 = nn.ReLU()
+                    self.order += ['fc0', 'rfc0']
+                    feat = H['hidden']
                 fc = nn.Linear(feat, H['out'], bias=H['bias'])
                 with torch.no_grad():
                     fc.weight.copy_((torch.rand(fc.weight.shape, generator=g) - 0.5) * 2 * 0.4)
@@ -126,7 +136,7 @@ def run_net(spec):
         out['where'] = _inner_frame(sys.exc_info()[2])
         out['msg'] = str(ex)[:300]
         return out
-    names = [n for n in net.order if n.startswith('c') or n == 'fc']
+    names = [n for n in net.order if n.startswith('c') or n in ('fc', 'fc0')]
     iq = {}
     hooks = [ie.get_submodule(n).register_forward_hook(lambda mod, i, o, n=n: iq.__setitem__(n, (i[0].detach().clone(), o.detach().clone()))) for n in names]
     inq = copy.deepcopy(e.x_input_quantizer.out_quantizer)
